@@ -1,4 +1,4 @@
 INIT Init
 NEXT Next
 CONSTANTS
-  ValClasses = {"zero", "one", "mone", "two", "min", "max", "minp1", "maxm1", "pow"}
+  ValClasses = {"zero", "one", "mone", "two", "min", "max", "minp1", "maxm1", "pow", "nan", "inf", "ninf"}
